@@ -110,8 +110,12 @@ fn policies(s: &AccessStructure) -> Vec<AccessPolicy> {
                 v.push(or(and(t(a), t(b)), t(b)));
                 for c in &at {
                     if b < c {
-                        v.push(or(and(t(a), t(b)), t(c)));
                         v.push(and(t(a), or(t(b), t(c))));
+                    }
+                    if c != a && c != b {
+                        // a specific clause first, then a clause that may lie inside its space (lower rank, fewer dimensions), and the reverse
+                        v.push(or(and(t(a), t(b)), t(c)));
+                        v.push(or(t(c), and(t(a), t(b))));
                     }
                 }
             }
@@ -130,7 +134,7 @@ const SHAPES: &[&[(bool, usize)]] = &[
     &[(true, 1), (false, 0)],
 ];
 
-// @obl props=C01,C02,C03,C06 tier=quick fn=abe_policy::AccessStructure::generate_complementary_rights shape="8 structures (also with one attribute disabled) (<= 3 dimensions x <= 3 attributes), all user policies of <= 3 terms without same-dimension clash"
+// @obl props=C01,C02,C03,C04,C06 tier=quick fn=abe_policy::AccessStructure::generate_complementary_rights shape="8 structures (also with one attribute disabled) (<= 3 dimensions x <= 3 attributes), all user policies of <= 3 terms without same-dimension clash"
 #[test]
 fn complementary_rights__equal_cover_relation() {
     let mut n = 0u64;
@@ -143,7 +147,7 @@ fn complementary_rights__equal_cover_relation() {
             }
             let got: BTreeSet<Right> = s.generate_complementary_rights(&p).unwrap().into_iter().collect();
             let want: BTreeSet<Right> = pts.iter().filter(|pt| sem(&s, &p, pt)).map(|pt| right_of(&s, pt)).collect();
-            vchk!(want.is_subset(&got), "C01: structure {shape:?}: user policy {p:?} lacks rights of points it covers: {:?}", want.difference(&got).collect::<Vec<_>>());
+            vchk!(want.is_subset(&got), "C01/C04: structure {shape:?}: user policy {p:?} lacks rights of points it covers (a key for it misses access; a rekey of it leaves those rights on their old secret): {:?}", want.difference(&got).collect::<Vec<_>>());
             vchk!(got.is_subset(&want), "C02: structure {shape:?}: user policy {p:?} receives rights of points it does not cover: {:?}", got.difference(&want).collect::<Vec<_>>());
             n += 1;
             // disabling an attribute changes what can be encrypted, not what a key covers (C03 / C06: keys keep opening)
